@@ -68,6 +68,11 @@ CLAIMED = {
    technique="bounded-exhaustive call sequences on one transaction plus stateless interleaving exploration of the transaction registry with timeouts, clock jumps and tickers as explorer-chosen environment events; deadlock detection by the scheduler",
    text="(A) every sequence of <=4 (5) calls {get, put, delete, scan, commit, rollback} on a read-write and a read-only transaction: first finish takes effect once, later calls return the closed error and change nothing, a probe begin is granted afterwards. (B) 8 registry scenarios (begin waiting for the lock while the 10 s timeout fires, abandonment + idle cleanup direct and via ticker, connection cleanup, graceful shutdown, commit racing rollback, stale cleanup racing commit) explored over all interleavings and all ready select cases up to 2 (3) deviations; after every terminal state a probe BeginTransaction(false) must be granted (otherwise the deadlock witness names the blocked call sites), a write is visible iff its commit succeeded, commit and rollback never both succeed.",
    note="Virtual time; a client never requests a second transaction while holding one."),
+ "C07": dict(
+   level="model_checking", design="§3 C07, §2.2",
+   technique="stateless model checking: exhaustive interleaving exploration (deviation bound 1 quick / 2 thorough) of every pair of public entry points for deadlock, livelock, panic and non-returning calls; data races by the Go race detector on free-running executions of the same bodies",
+   text="Entry points come from the method sets of *EngineFacade, interfaces.Transaction, interfaces.CompactionManager and stats.Collector by reflection (a method without body or recorded exclusion is a HARNESS-ERROR, so new methods cannot be silently uncovered). All unordered pairs of 22 engine-level bodies, all pairs of 7 transaction methods on one shared transaction, transaction methods against engine traffic and 4 triples run on an engine with 2 level-0 files, a pending immutable table and a live background flush thread. Pass 1 explores every interleaving with <=1 (2) deviations: deadlock (no enabled thread, witness = blocked threads and sites), livelock, panic, step horizon or an unusable engine is a violation. Pass 3 runs the same bodies free-running in a -race build (5 / 60 iterations per group): any race report outside Close, panic, fatal error or 60 s hang is a violation, fingerprinted by the two racing functions.",
+   note="The race clause is decided by the happens-before race detector on sampled free-running schedules (its verdict does not depend on the accesses actually overlapping, only on the absence of synchronisation between them), not by the exhaustive pass; a cooperative scheduler's hand-offs would blind the detector. Close concurrent with other calls (including the engine's own background flush) is out of scope."),
 }
 
 ALL = ["C%02d" % i for i in range(1, 21)]
